@@ -535,7 +535,7 @@ pub fn run(run: &mut Run) {
                 Ok(Ok(h2)) => {
                     if h2.num_rows() != m.rows || h2.num_cols() != m.cols || { let mut a = m.e.clone(); a.sort_unstable(); a.dedup(); crate::genm::from_sparse(&h2) != a } {
                         l.violation(
-                            format!("a valid alist parsed after a {} text on the same thread does not give the matrix back (state kept between parser calls)", if SparseMatrix::from_alist(&text).is_ok() { "accepted" } else { "rejected" }),
+                            format!("a valid alist parsed after a {} text on the same thread does not give the matrix back (state kept between parser calls)", if matches!(guard(|| SparseMatrix::from_alist(&text).is_ok()), Ok(true)) { "accepted" } else { "rejected" }),
                             m.json().set("previous_text_kind", kind).set("previous_text", text.chars().take(400).collect::<String>()).set("got_entries", crate::json::jentries(&crate::genm::from_sparse(&h2))),
                         );
                     } else {
